@@ -943,9 +943,12 @@ class Vector():
 
 	def _unary_operation(self, op_func, op_name: str):
 		"""Helper function to handle unary operations on each element."""
+		# The result kind can differ from the operand kind (-True is the int -1):
+		# infer the dtype from the results like the binary operations do
+		values = tuple(None if x is None else op_func(x) for x in self)
 		return Vector(
-			tuple(None if x is None else op_func(x) for x in self),
-			dtype=self._dtype,
+			values,
+			dtype=infer_dtype(values) if values else self._dtype,
 			name=self._name,
 			as_row=self._display_as_row
 		)
